@@ -25,9 +25,10 @@ const (
 	lTNeg
 	lPosNeg // mentioned positively and then negated in the same rule body
 	lNegPos // negated and then mentioned positively
+	lTAgg   // aggregated, the aggregated body mention being a temporally annotated literal
 )
 
-var labelNames = []string{"-", "pos", "neg", "agg", "tpos", "tneg", "pos+neg", "neg+pos"}
+var labelNames = []string{"-", "pos", "neg", "agg", "tpos", "tneg", "pos+neg", "neg+pos", "tagg"}
 
 var c03Names = []string{"a", "b", "c", "d"}
 
@@ -60,8 +61,12 @@ func c03Program(n int, g []int) analysis.Program {
 				body = append(body, ast.TemporalLiteral{Literal: at, Interval: &iv})
 			case lTNeg:
 				body = append(body, ast.TemporalLiteral{Literal: ast.NegAtom{Atom: at}, Interval: &iv})
-			case lAgg:
+			case lAgg, lTAgg:
 				c := ast.Variable{Symbol: "C"}
+				var at ast.Term = at
+				if g[u*n+w] == lTAgg {
+					at = ast.TemporalLiteral{Literal: at.(ast.Atom), Interval: &iv}
+				}
 				tr := &ast.Transform{Statements: []ast.TransformStmt{
 					{Var: nil, Fn: ast.ApplyFn{Function: ast.FunctionSym{Symbol: "fn:group_by", Arity: 0}}},
 					{Var: &c, Fn: ast.ApplyFn{Function: ast.FunctionSym{Symbol: "fn:count", Arity: 0}}},
@@ -81,7 +86,7 @@ func c03Source(n int, g []int) string {
 	temporal := make([]bool, n)
 	for u := 0; u < n; u++ {
 		for w := 0; w < n; w++ {
-			if g[u*n+w] == lTPos || g[u*n+w] == lTNeg {
+			if g[u*n+w] == lTPos || g[u*n+w] == lTNeg || g[u*n+w] == lTAgg {
 				temporal[w] = true
 			}
 		}
@@ -108,6 +113,8 @@ func c03Source(n int, g []int) string {
 				body = append(body, "!"+at+"@[_,_]")
 			case lAgg:
 				fmt.Fprintf(&sb, "%s(C) :- %s |> do fn:group_by(), let C = fn:count().\n", c03Names[u], at)
+			case lTAgg:
+				fmt.Fprintf(&sb, "%s(C) :- %s@[S%s,E%s] |> do fn:group_by(), let C = fn:count().\n", c03Names[u], at, c03Names[w], c03Names[w])
 			}
 		}
 		head := c03Names[u] + "(V)"
@@ -153,7 +160,7 @@ func c03Oracle(n int, g []int) (bool, [][]bool) {
 	for u := 0; u < n; u++ {
 		for w := 0; w < n; w++ {
 			l := g[u*n+w]
-			if (l == lNeg || l == lAgg || l == lTNeg || l == lPosNeg || l == lNegPos) && (u == w || reach[w][u]) {
+			if (l == lNeg || l == lAgg || l == lTNeg || l == lPosNeg || l == lNegPos || l == lTAgg) && (u == w || reach[w][u]) {
 				fail = true
 			}
 		}
@@ -211,9 +218,9 @@ func c03Check(n int, g []int, strata []analysis.Nodeset, p2s map[ast.PredicateSy
 			if l == lAbsent {
 				continue
 			}
-			strict := l == lNeg || l == lAgg || l == lTNeg || l == lPosNeg || l == lNegPos
+			strict := l == lNeg || l == lAgg || l == lTNeg || l == lPosNeg || l == lNegPos || l == lTAgg
 			kindSuffix := ""
-			if l == lTPos || l == lTNeg {
+			if l == lTPos || l == lTNeg || l == lTAgg {
 				kindSuffix = "-temporal"
 			}
 			if layer[w] > layer[u] {
@@ -264,8 +271,9 @@ func c03(r *rt.Run) {
 	spaces := []space{{3, []int{lAbsent, lPos, lNeg, lAgg, lTPos, lPosNeg}, true}}
 	if r.Thorough() {
 		spaces = []space{{3, []int{lAbsent, lPos, lNeg, lAgg, lTPos, lTNeg, lPosNeg}, true}, {3, []int{lAbsent, lPos, lNeg, lNegPos, lPosNeg}, true}, {4, []int{lAbsent, lPos, lNeg}, false}, {4, []int{lAbsent, lPos, lAgg}, false}, {4, []int{lAbsent, lTPos, lTNeg}, false}}
+		spaces = append(spaces, space{3, []int{lAbsent, lPos, lNeg, lTAgg}, true}, space{4, []int{lAbsent, lPos, lTAgg}, false})
 	} else {
-		spaces = append(spaces, space{4, []int{lAbsent, lPos, lNeg}, false})
+		spaces = append(spaces, space{4, []int{lAbsent, lPos, lNeg}, false}, space{3, []int{lAbsent, lPos, lTAgg}, true})
 	}
 	for _, sp := range spaces {
 		total := 1
@@ -288,7 +296,7 @@ func c03(r *rt.Run) {
 		})
 	}
 	c03MapOrder(r)
-	r.Finish("every labelled dependency graph over 3 IDB predicates (labels absent/pos/neg/agg/temporal-pos/pos+neg[/temporal-neg/neg+pos]) and over 4 (reduced labels), up to renaming of predicates (only the lexicographically least relabelling is run), as analysis.Program and (a 1/61 slice of n=3) as source text through parse+Analyze; plus the map-iteration-order exploration of Stratify on all labelled 3-predicate graphs (see map_order_exploration); " +
+	r.Finish("every labelled dependency graph over 3 IDB predicates (labels absent/pos/neg/agg/temporal-pos/pos+neg[/temporal-neg/neg+pos]; a space with aggregation over a temporally annotated mention) and over 4 (reduced labels), up to renaming of predicates (only the lexicographically least relabelling is run), as analysis.Program and (a 1/61 slice of n=3) as source text through parse+Analyze; plus the map-iteration-order exploration of Stratify on all labelled 3-predicate graphs (see map_order_exploration); " +
 		"non-trivial = graph has a cycle or a negative/aggregating/temporal edge; distinct by construction")
 }
 
